@@ -337,6 +337,9 @@ pub fn main(a: &[String]) {
     if prop == "C13" {
         zst_drops(&mut o);
     }
+    if matches!(prop.as_str(), "C01" | "C03" | "C04" | "C07") {
+        spawn_faults(&mut o, &prop, seed);
+    }
     let json = format!(
         "{{\"prop\":\"{}\",\"seed\":{},\"n\":0,\"cases_count\":{},\"cases\":[{}],\"sample\":[{}],\"violations\":[{}],\"wall_s\":{:.2}}}",
         prop,
@@ -693,4 +696,184 @@ fn zst_drops(o: &mut Out) {
             });
         }
     }
+}
+
+// ------------------------------------------------------------------------------------------------------------------
+// Fault injection: thread creation fails (pthread_create -> EAGAIN).
+//
+// The probe binary defines `pthread_create` itself; std (linked statically into the binary) therefore calls this
+// definition, which forwards to libc's (`dlsym(RTLD_NEXT)`) unless the attempt number falls into the window
+// [FAIL_FROM, FAIL_UNTIL) of the current run.  With the window empty (the default) it is a pure pass-through.
+// Oracle: a terminal whose worker creation fails must either propagate a panic or return exactly the result of the
+// sequential computation; it must never return normally with elements lost or duplicated (C01, C03, C04, C07).
+// ------------------------------------------------------------------------------------------------------------------
+mod spawn_fault {
+    use std::ffi::c_void;
+    use std::sync::atomic::{AtomicU64, AtomicUsize, Ordering::SeqCst};
+    pub static ATTEMPT: AtomicU64 = AtomicU64::new(0);
+    pub static FAIL_FROM: AtomicU64 = AtomicU64::new(u64::MAX);
+    pub static FAIL_UNTIL: AtomicU64 = AtomicU64::new(u64::MAX);
+    pub static FIRED: AtomicU64 = AtomicU64::new(0);
+    static REAL: AtomicUsize = AtomicUsize::new(0);
+    type Start = extern "C" fn(*mut c_void) -> *mut c_void;
+    type Create = unsafe extern "C" fn(*mut c_void, *const c_void, Start, *mut c_void) -> i32;
+    extern "C" {
+        fn dlsym(handle: *mut c_void, symbol: *const u8) -> *mut c_void;
+    }
+    #[no_mangle]
+    pub unsafe extern "C" fn pthread_create(t: *mut c_void, attr: *const c_void, f: Start, arg: *mut c_void) -> i32 {
+        let k = ATTEMPT.fetch_add(1, SeqCst);
+        if k >= FAIL_FROM.load(SeqCst) && k < FAIL_UNTIL.load(SeqCst) {
+            FIRED.fetch_add(1, SeqCst);
+            return 11; // EAGAIN
+        }
+        let mut real = REAL.load(SeqCst);
+        if real == 0 {
+            real = dlsym(usize::MAX as *mut c_void, b"pthread_create\0".as_ptr()) as usize; // RTLD_NEXT
+            if real == 0 {
+                return 38; // ENOSYS: no real pthread_create found (never seen)
+            }
+            REAL.store(real, SeqCst);
+        }
+        let real: Create = std::mem::transmute::<usize, Create>(real);
+        real(t, attr, f, arg)
+    }
+    /// arms the window for the next run: attempts from..until (counted from now) fail
+    pub fn arm(from: u64, until: u64) {
+        ATTEMPT.store(0, SeqCst);
+        FIRED.store(0, SeqCst);
+        FAIL_UNTIL.store(until, SeqCst);
+        FAIL_FROM.store(from, SeqCst);
+    }
+    pub fn disarm() -> u64 {
+        FAIL_FROM.store(u64::MAX, SeqCst);
+        FAIL_UNTIL.store(u64::MAX, SeqCst);
+        FIRED.load(SeqCst)
+    }
+}
+
+fn spawn_faults(o: &mut Out, prop: &str, seed: u64) {
+    let prev_hook = std::panic::take_hook();
+    std::panic::set_hook(Box::new(|_| {}));
+    spawn_faults_inner(o, prop, seed);
+    std::panic::set_hook(prev_hook);
+}
+
+fn spawn_faults_inner(o: &mut Out, prop: &str, seed: u64) {
+    use std::panic::{catch_unwind, AssertUnwindSafe};
+    // self-check of the injector: a thread cannot be created while the window is open, and can afterwards
+    spawn_fault::arm(0, u64::MAX);
+    let refused = std::thread::Builder::new().spawn(|| ()).is_err();
+    spawn_fault::disarm();
+    let allowed = std::thread::Builder::new().spawn(|| ()).map(|h| h.join().is_ok()).unwrap_or(false);
+    if !(refused && allowed) {
+        o.sample.push(format!("spawn-fault injector INCONCLUSIVE (refused={}, allowed={}): skipped", refused, allowed));
+        return;
+    }
+    let mut r = Rng(seed ^ 0x5fa_017);
+    let (mut fired_runs, mut panicked, mut correct_despite_fault, mut runs) = (0u64, 0u64, 0u64, 0u64);
+    // (first failing attempt, number of failing attempts)
+    let windows: [(u64, u64); 7] = [(0, u64::MAX), (1, u64::MAX), (2, u64::MAX), (0, 1), (1, 1), (3, 2), (4, u64::MAX)];
+    let lens = [1usize, 2, 5, 33, 257, 5000];
+    for &n in &lens {
+        let data: Vec<u64> = (0..n).map(|_| r.below(1000)).collect();
+        for &nt in &[0usize, 2, 3, 8] {
+            for &cs in &[0usize, 1, 4] {
+                for &(from, cnt) in &windows {
+                    let until = from.saturating_add(cnt);
+                    // every entry: (label, run -> canonical Vec<u64> result, expected, order matters)
+                    let seq_m: Vec<u64> = data.iter().map(|x| m1(*x)).collect();
+                    let seq_f: Vec<u64> = data.iter().copied().filter(f1).collect();
+                    let seq_mf: Vec<u64> = data.iter().map(|x| m1(*x)).filter(f2).collect();
+                    let seq_x: Vec<u64> = data.iter().flat_map(|x| xm(*x)).collect();
+                    let seq_o: Vec<u64> = data.iter().filter_map(|x| fm(*x)).collect();
+                    let seq_xf: Vec<u64> = data.iter().flat_map(|x| xm(*x)).filter(f1).collect();
+                    let sorted = |mut v: Vec<u64>| {
+                        v.sort_unstable();
+                        v
+                    };
+                    type Run<'a> = Box<dyn Fn() -> Vec<u64> + 'a>;
+                    let mut table: Vec<(&str, Run, Vec<u64>)> = Vec::new();
+                    let d = &data;
+                    if prop == "C01" {
+                        table.push(("vec.map.collect_vec", Box::new(move || d.clone().into_par().num_threads(nt).chunk_size(cs).map(m1).collect_vec()), seq_m.clone()));
+                        table.push(("slice.filter.collect_vec", Box::new(move || d.par().num_threads(nt).chunk_size(cs).copied().filter(f1).collect_vec()), seq_f.clone()));
+                        table.push(("iter.map.filter.collect", Box::new(move || d.iter().par().num_threads(nt).chunk_size(cs).map(|x| m1(*x)).filter(f2).collect().into_iter().collect()), seq_mf.clone()));
+                        table.push(("vec.flat_map.collect_vec", Box::new(move || d.clone().into_par().num_threads(nt).chunk_size(cs).flat_map(xm).collect_vec()), seq_x.clone()));
+                        table.push(("range.filter_map.collect_vec", Box::new(move || (0..d.len()).into_par().num_threads(nt).chunk_size(cs).filter_map(|i| fm(d[i])).collect_vec()), seq_o.clone()));
+                        table.push(("vec.flat_map.filter.collect_into(vec![7])", Box::new(move || d.clone().into_par().num_threads(nt).chunk_size(cs).flat_map(xm).filter(f1).collect_into(vec![7u64])), {
+                            let mut e = vec![7u64];
+                            e.extend(seq_xf.iter().copied());
+                            e
+                        }));
+                    }
+                    if prop == "C07" {
+                        table.push(("vec.map.collect_x", Box::new(move || sorted(d.clone().into_par().num_threads(nt).chunk_size(cs).map(m1).collect_x().into_iter().collect())), sorted(seq_m.clone())));
+                        table.push(("slice.filter.collect_x", Box::new(move || sorted(d.par().num_threads(nt).chunk_size(cs).copied().filter(f1).collect_x().into_iter().collect())), sorted(seq_f.clone())));
+                        table.push(("iter.map.filter.collect_x", Box::new(move || sorted(d.iter().par().num_threads(nt).chunk_size(cs).map(|x| m1(*x)).filter(f2).collect_x().into_iter().collect())), sorted(seq_mf.clone())));
+                        table.push(("vec.flat_map.collect_x", Box::new(move || sorted(d.clone().into_par().num_threads(nt).chunk_size(cs).flat_map(xm).collect_x().into_iter().collect())), sorted(seq_x.clone())));
+                        table.push(("range.filter_map.collect_x", Box::new(move || sorted((0..d.len()).into_par().num_threads(nt).chunk_size(cs).filter_map(|i| fm(d[i])).collect_x().into_iter().collect())), sorted(seq_o.clone())));
+                        table.push(("vec.flat_map.filter.collect_x", Box::new(move || sorted(d.clone().into_par().num_threads(nt).chunk_size(cs).flat_map(xm).filter(f1).collect_x().into_iter().collect())), sorted(seq_xf.clone())));
+                    }
+                    if prop == "C04" {
+                        table.push(("vec.map.count", Box::new(move || vec![d.clone().into_par().num_threads(nt).chunk_size(cs).map(m1).count() as u64]), vec![seq_m.len() as u64]));
+                        table.push(("slice.filter.count", Box::new(move || vec![d.par().num_threads(nt).chunk_size(cs).copied().filter(f1).count() as u64]), vec![seq_f.len() as u64]));
+                        table.push(("iter.flat_map.filter.count", Box::new(move || vec![d.iter().par().num_threads(nt).chunk_size(cs).flat_map(|x| xm(*x)).filter(f1).count() as u64]), vec![seq_xf.len() as u64]));
+                        table.push(("range.filter_map.count", Box::new(move || vec![(0..d.len()).into_par().num_threads(nt).chunk_size(cs).filter_map(|i| fm(d[i])).count() as u64]), vec![seq_o.len() as u64]));
+                        table.push(("vec.filter.for_each(sum)", Box::new(move || {
+                            let s = std::sync::atomic::AtomicU64::new(0);
+                            d.clone().into_par().num_threads(nt).chunk_size(cs).filter(f1).for_each(|x| {
+                                s.fetch_add(x + 1, std::sync::atomic::Ordering::Relaxed);
+                            });
+                            vec![s.into_inner()]
+                        }), vec![seq_f.iter().map(|x| x + 1).sum::<u64>()]));
+                    }
+                    if prop == "C03" {
+                        table.push(("vec.map.sum", Box::new(move || vec![d.clone().into_par().num_threads(nt).chunk_size(cs).map(m1).sum()]), vec![seq_m.iter().sum::<u64>()]));
+                        table.push(("slice.filter.reduce(+)", Box::new(move || d.par().num_threads(nt).chunk_size(cs).copied().filter(f1).reduce(|a, b| a + b).into_iter().collect()), if seq_f.is_empty() { vec![] } else { vec![seq_f.iter().sum::<u64>()] }));
+                        table.push(("iter.flat_map.max", Box::new(move || d.iter().par().num_threads(nt).chunk_size(cs).flat_map(|x| xm(*x)).max().into_iter().collect()), seq_x.iter().copied().max().into_iter().collect()));
+                        table.push(("range.filter_map.fold(+)", Box::new(move || vec![(0..d.len()).into_par().num_threads(nt).chunk_size(cs).filter_map(|i| fm(d[i])).fold(|| 0u64, |a, b| a + b)]), vec![seq_o.iter().sum::<u64>()]));
+                        table.push(("vec.map.filter.min", Box::new(move || d.clone().into_par().num_threads(nt).chunk_size(cs).map(m1).filter(f2).min().into_iter().collect()), seq_mf.iter().copied().min().into_iter().collect()));
+                    }
+                    for (label, run, expect) in table.iter() {
+                        spawn_fault::arm(from, until);
+                        let got = catch_unwind(AssertUnwindSafe(|| run()));
+                        let fired = spawn_fault::disarm();
+                        runs += 1;
+                        o.cases += 1;
+                        o.kinds.insert(format!("thread-creation fault / {}", label));
+                        if fired > 0 {
+                            fired_runs += 1;
+                        }
+                        match got {
+                            Err(_) => {
+                                panicked += 1;
+                                if fired == 0 {
+                                    o.violations.push(format!(
+                                        "{} panicked although no thread-creation fault was injected (n={}, nt={}, cs={}, window from {} x{})",
+                                        label, n, nt, cs, from, cnt
+                                    ));
+                                }
+                            }
+                            Ok(v) => {
+                                if fired > 0 {
+                                    correct_despite_fault += 1;
+                                }
+                                if &v != expect {
+                                    o.violations.push(format!(
+                                        "{}: thread creation failed {} time(s) (attempts {}.. x{}), the terminal returned normally with a wrong result: n={}, nt={}, cs={}: got {} values {:?}, expected {} values {:?}",
+                                        label, fired, from, cnt, n, nt, cs, v.len(), &v[..v.len().min(8)], expect.len(), &expect[..expect.len().min(8)]
+                                    ));
+                                }
+                            }
+                        }
+                    }
+                }
+            }
+        }
+    }
+    o.sample.push(format!(
+        "thread-creation faults: {} runs, the fault fired in {} of them ({} propagated a panic, {} returned the correct result nevertheless)",
+        runs, fired_runs, panicked, correct_despite_fault
+    ));
 }
